@@ -25,7 +25,7 @@ CLAIMED["C04"] = dict(
          "scaled-down widths over all short strings, ObjectReuse.tla's MarshalIsCurrent on the complete state graph (with the "
          "stale-cache variant as negative control), generates every reuse behaviour up to the depth for replay on all six "
          "request types, and validates every recorded decoder/encoder/reuse event at the real widths by decoding and encoding "
-         "the logged bytes itself.",
+         "the logged bytes itself. TLAPS (ObjectReuseProofs) proves MarshalIsCurrent for every call sequence on one object.",
     note="Trusts TLC's evaluation of Messages.tla, and that Messages.tla transcribes the RFC 9578 / draft grammars correctly "
          "(Ne=49, Nk=48/256/64). Real-width values are seeded samples plus the mutation closure of honest messages, not all strings.",
     technique="TLA+ grammar spec + TLC exhaustive codec laws + TLC-generated reuse behaviours replayed + TLC trace validation of recorded codec calls",
@@ -151,7 +151,7 @@ CLAIMED["C05"] = dict(
          "CountAndOrder, PresentIff, PresentFinalizes and Isolation for every issuer configuration and request sequence up to "
          "the bound, plus completion. Every behaviour TLC generates (5 configurations x all sequences of length 1..3, thorough 4, "
          "over 6 request kinds) is executed on the real client / issuer / decoder / finalizers, both directly and with the batch "
-         "request marshalled and re-decoded, and TLC validates the recorded slots against the model.",
+         "request marshalled and re-decoded, and TLC validates the recorded slots against the model. TLAPS (BatchProofs) proves count/order, slot isolation and present-iff-servable for batches of any length.",
     note="Failing issuers of a matching type and id are stubs of the Issuer interface; token validity as in C01.",
     technique="TLA+ spec + TLC model checking + TLC-generated behaviours replayed on the real batch pipeline + TLC trace validation",
     ref="5/C05")
@@ -225,7 +225,7 @@ CLAIMED["C17"] = dict(
          "defect found in the code). Every program TLC generates - 2 goroutines x 2 operations (thorough 3 x 2) per object kind: "
          "type 1/2/3/5 issuers, the generic batch issuer, an ECDSA key, an Ed25519 key - runs on real goroutines released "
          "together on a freshly constructed object in a harness built with -race; TLC validates the recorded events: no race-"
-         "detector report, every result equal to the sequential reference.",
+         "detector report, every result equal to the sequential reference. TLAPS (ConcurrencyProofs) proves NoRace and Linearizable of the eager design for any number of goroutines and operations.",
     note="Interleavings are controlled at call granularity; inside a call the race detector's happens-before analysis replaces "
          "enumeration (it reports unsynchronised conflicting accesses whenever both occur in a run). The access-level model of "
          "the dependency's internals is hand-written from reading circl.",
